@@ -3,6 +3,8 @@ package seq
 import (
 	"fmt"
 
+	"berty.tech/go-ipfs-log/iface"
+
 	"verif/engine/run"
 	"verif/engine/seqx"
 )
@@ -41,6 +43,14 @@ func appendOnlyOracle(p *run.Part, check string, w *seqx.World, pre *seqx.Pre, o
 			// the instance captured before the call must not have been mutated either
 			if d := seqx.DumpEntry(old); d != pre.Bytes[i][h.String()] {
 				p.Violate(check, "C05:held-entry-mutated", fmt.Sprintf("after %s: an entry object held before the call was mutated in place: %s", path, short(w, []string{h.String()})), c)
+			}
+		}
+		// the views show the same content as Get: an entry already held keeps its content in Values() and Heads() too
+		for _, view := range [][]iface.IPFSLogEntry{l.Values().Slice(), l.Heads().Slice()} {
+			for _, e := range view {
+				if was, ok := pre.Bytes[i][e.GetHash().String()]; ok && seqx.DumpEntry(e) != was {
+					p.Violate(check, "C05:entry-changed-in-view", fmt.Sprintf("after %s: replica %d shows entry %s in Values()/Heads() with content that differs from what it held:\n  before %s\n  after  %s", path, i, short(w, []string{e.GetHash().String()}), was, seqx.DumpEntry(e)), c)
+				}
 			}
 		}
 		cur := hashesOf(l.Values().Slice())
